@@ -52,6 +52,28 @@ def run(ctx):
     if bad2:
         broken.append('correspondence: compare(string) differs from the model on %d of %d pairs' % (len(bad2), len(sops)))
 
+    # ---- every pair of characters of the recorded sort alphabet, in one position of two otherwise equal strings:
+    # two different strings over the alphabet never compare equal, and the comparison is antisymmetric
+    alpha = sorted(g.alpha)
+    aops = ['%s\t%s' % (esc('/p' + c + 'q'), esc('/p' + d + 'q')) for c in alpha for d in alpha]
+    ares = ctx.run_go('cmpstr', aops)
+    ctx.cov['evaluations'] += len(aops)
+    nal = 0
+    k = 0
+    for c in alpha:
+        for d in alpha:
+            v = int(ares[k][3:]) if ares[k].startswith('ok\t') else None
+            w = int(ares[alpha.index(d) * len(alpha) + alpha.index(c)][3:]) if ares[alpha.index(d) * len(alpha) + alpha.index(c)].startswith('ok\t') else None
+            k += 1
+            if v is None or w is None:
+                continue
+            if (c != d and v == 0) or (c == d and v != 0) or sign(v) != -sign(w):
+                nal += 1
+                if nal <= 3:
+                    ctx.violation('two strings over the sort alphabet that differ in one character (%r / %r): compare gives %d and %d the other way round' % (c, d, v, w),
+                                  {'a': '/p' + c + 'q', 'b': '/p' + d + 'q', 'ab': v, 'ba': w})
+    ctx.cov['search']['alphabet_pairs'] = {'pairs': len(aops), 'failures': nal, 'exhaustive_over': 'all ordered pairs of characters of the recorded sort alphabet'}
+
     # ---- search on the real code: pairs ---------------------------------------------------------
     rev = ctx.run_go('compare', ['%s\t%s' % (R.enc(y), R.enc(x)) for x, y in pairs])
     ctx.cov['evaluations'] += len(rev)
